@@ -7,6 +7,7 @@ import (
 	"hash/fnv"
 	"net/http"
 	"net/url"
+	"strconv"
 	"strings"
 	"sync"
 	"sync/atomic"
@@ -161,38 +162,53 @@ func famConc(o *Out, r R, tier string) {
 	famStress(o, r, tier)
 }
 
-// famStress: goroutines serving requests while others reconfigure; every response must be the
-// response of ONE of the states that can be current (no mixing), every Config() a normal form.
+// famStress: goroutines serving requests while a writer walks a cycle of states in which some
+// (configuration, debug) combinations NEVER exist: P only with debug on, S only with debug off.
+//   (Q,on) -Reconfigure(P)-> (P,on) -Reconfigure(Q)-> (Q,on) -SetDebug(false)-> (Q,off) -Reconfigure(S)-> (S,off)
+//   -Reconfigure(nil)-> (nil,off) -Reconfigure(Q)-> (Q,off) -SetDebug(true)-> (Q,on) ...
+// Every response must be the response of ONE state of the cycle (a response mixing the configuration of one
+// instant with the debug mode of another - (P,off) or (S,on) - belongs to none), every Config() a normal form
+// of P, Q, S or nil.
 func famStress(o *Out, r R, tier string) {
-	dur := 700 * time.Millisecond
+	dur := 900 * time.Millisecond
 	if tier == "thorough" {
-		dur = 8 * time.Second
+		dur = 10 * time.Second
 	}
-	a := cors.Config{Origins: []string{"https://a.example"}, Credentialed: true, Methods: []string{"PUT"}, RequestHeaders: []string{"X-A"}, MaxAgeInSeconds: 30, ResponseHeaders: []string{"X-RA"}}
-	b := cors.Config{Origins: []string{"*"}, Methods: []string{"*"}, RequestHeaders: []string{"*"}, MaxAgeInSeconds: -1, ResponseHeaders: []string{"*"}, ExtraConfig: cors.ExtraConfig{PreflightSuccessStatus: 200}}
-	states := []*cors.Config{&a, &b, nil}
-	reqs := probeSuite(&a, &b)
-	// expected responses per request: the set over all (state, debug)
+	mk := func(origin string, status int, hdrs ...string) cors.Config {
+		return cors.Config{Origins: []string{origin}, Credentialed: true, Methods: []string{"PUT"}, RequestHeaders: hdrs,
+			MaxAgeInSeconds: status, ResponseHeaders: []string{"X-R" + strconv.Itoa(status)}, ExtraConfig: cors.ExtraConfig{PreflightSuccessStatus: status}}
+	}
+	p, q, s := mk("https://p.example", 201, "X-P1", "X-P2"), mk("https://q.example", 202, "X-Q1", "X-Q2"), mk("https://s.example", 203, "X-S1", "X-S2")
+	type stT struct {
+		c   *cors.Config
+		dbg bool
+	}
+	exist := []stT{{&q, true}, {&p, true}, {&q, false}, {&s, false}, {nil, false}}
+	var reqs []reqT
+	for _, og := range []string{"https://p.example", "https://q.example", "https://s.example"} {
+		for _, h := range []string{"x-p1", "x-q1", "x-s1", "x-unlisted"} {
+			reqs = append(reqs,
+				reqT{method: "OPTIONS", hdrs: http.Header{"Origin": {og}, "Access-Control-Request-Method": {"PUT"}, "Access-Control-Request-Headers": {h}}},
+				reqT{method: "OPTIONS", hdrs: http.Header{"Origin": {og}, "Access-Control-Request-Method": {"DELETE"}, "Access-Control-Request-Headers": {h}}})
+		}
+		reqs = append(reqs, reqT{method: "GET", hdrs: http.Header{"Origin": {og}}})
+	}
 	allowed := make([]map[string]bool, len(reqs))
-	for qi, q := range reqs {
+	for qi, rq := range reqs {
 		allowed[qi] = map[string]bool{}
-		for _, s := range states {
-			for _, d := range []bool{false, true} {
-				if s == nil && d {
-					continue
-				}
-				allowed[qi][str(serveOnce(newMW(s, d), q, http.Header{}).sx())] = true
-			}
+		for _, st := range exist {
+			allowed[qi][str(serveOnce(newMW(st.c, st.dbg), rq, http.Header{}).sx())] = true
 		}
 	}
 	cfgForms := map[string]bool{"nil": true}
-	for _, s := range states[:2] {
-		m, _ := cors.NewMiddleware(cloneCfg(*s))
+	for _, c := range []cors.Config{p, q, s} {
+		m, _ := cors.NewMiddleware(cloneCfg(c))
 		cfgForms[str(cfgSX(m.Config()))] = true
 	}
-	m, _ := cors.NewMiddleware(cloneCfg(a))
+	m, _ := cors.NewMiddleware(cloneCfg(q))
+	m.SetDebug(true)
 	var bad atomic.Value
-	var nresp, nops atomic.Int64
+	var nresp, ncycles atomic.Int64
 	stop := make(chan struct{})
 	var wg sync.WaitGroup
 	for g := 0; g < 6; g++ {
@@ -209,51 +225,62 @@ func famStress(o *Out, r R, tier string) {
 				got := str(serveOnce(m, reqs[qi], http.Header{}).sx())
 				nresp.Add(1)
 				if !allowed[qi][got] {
-					bad.Store("request " + str(reqs[qi].sx()) + " got a response no single state gives: " + got)
+					bad.Store("request " + str(reqs[qi].sx()) + " got a response that no state of the cycle gives (two instants mixed): " + got)
 				}
 			}
 		}(g)
 	}
-	for g := 0; g < 3; g++ {
-		wg.Add(1)
-		go func(g int) {
-			defer wg.Done()
-			for i := 0; ; i++ {
-				select {
-				case <-stop:
-					return
-				default:
-				}
-				switch (i + g) % 5 {
-				case 0:
-					cc := cloneCfg(a)
-					m.Reconfigure(&cc)
-				case 1:
-					cc := cloneCfg(b)
-					m.Reconfigure(&cc)
-				case 2:
-					m.Reconfigure(nil)
-				case 3:
-					m.SetDebug(i%2 == 0)
-				case 4:
-					c := m.Config()
-					s := "nil"
-					if c != nil {
-						s = str(cfgSX(c))
-					}
-					if !cfgForms[s] {
-						bad.Store("Config() returned a value that is the normal form of no state: " + s)
-					}
-				}
-				nops.Add(1)
+	wg.Add(1)
+	go func() { // the single writer walking the cycle
+		defer wg.Done()
+		rc := func(c *cors.Config) {
+			if c == nil {
+				m.Reconfigure(nil)
+				return
 			}
-		}(g)
-	}
+			cc := cloneCfg(*c)
+			m.Reconfigure(&cc)
+		}
+		for {
+			select {
+			case <-stop:
+				return
+			default:
+			}
+			rc(&p)
+			rc(&q)
+			m.SetDebug(false)
+			rc(&s)
+			rc(nil)
+			rc(&q)
+			m.SetDebug(true)
+			ncycles.Add(1)
+		}
+	}()
+	wg.Add(1)
+	go func() { // Config() readers
+		defer wg.Done()
+		for {
+			select {
+			case <-stop:
+				return
+			default:
+			}
+			c := m.Config()
+			sx := "nil"
+			if c != nil {
+				sx = str(cfgSX(c))
+			}
+			if !cfgForms[sx] {
+				bad.Store("Config() returned a value that is the normal form of no state: " + sx)
+			}
+		}
+	}()
 	time.Sleep(dur)
 	close(stop)
 	wg.Wait()
 	msg, _ := bad.Load().(string)
-	o.emitDirect("conc-stress", msg == "", fmt.Sprintf("%d responses, %d writer ops; %s", nresp.Load(), nops.Load(), msg))
+	o.emitDirect("conc-stress", msg == "", fmt.Sprintf("%d responses, %d writer cycles; %s", nresp.Load(), ncycles.Load(), msg))
 }
 
 // ======================= C12: aliasing and request history =======================
